@@ -175,10 +175,10 @@ Lemma fix_missing_lift : forall cur f, fix_missing cur (lift_func f) = lift_func
 Proof.
   intros cur [k li ch| | |]; try reflexivity.
   destruct ch as [|x [|y [|z r]]]; try (destruct li; reflexivity).
-  - destruct x; destruct li; reflexivity.
-  - destruct x as [kx lx cx| |a|]; try (destruct li; reflexivity).
+  - destruct x as [kx [| |] cx| | |]; destruct li; reflexivity.
+  - destruct x as [kx [| |] cx| |a|]; try (destruct li; reflexivity).
     cbn [lift_func]. destruct (k =? K_Name) eqn:E; destruct li; cbn [fix_missing map lift_func]; rewrite ?E; reflexivity.
-  - destruct x; destruct li; reflexivity.
+  - destruct x as [kx [| |] cx| | |]; destruct li; reflexivity.
 Qed.
 
 Lemma wf_node : forall k li ch, wf (Node k li ch) = true ->
@@ -220,7 +220,8 @@ Fixpoint size (t : tree) : nat :=
 Lemma size_in : forall x xs, In x xs -> (size x <= list_sum (map size xs))%nat.
 Proof.
   intros x xs. induction xs as [|y r IH]; intros H; [destruct H|].
-  cbn [map list_sum]. destruct H as [->|H]; [lia|]. specialize (IH H). lia.
+  change (list_sum (map size (y :: r))) with (size y + list_sum (map size r))%nat.
+  destruct H as [H|H]; [subst y; lia|]. specialize (IH H). lia.
 Qed.
 
 (* ---------------------------------------------------------------- T1: the compiler performs the documented rewriting *)
@@ -293,23 +294,24 @@ Proof.
   3: { injection H as <-. reflexivity. }
   2: { apply bind_OK in H as [xs' [Hxs H]]. injection H as <-. cbn [fix_missing]. f_equal.
        apply list_agrees with (c := c); try assumption.
-       - intros x Hx. apply IH. cbn [size] in Hsz. pose proof (size_in _ _ Hx). lia.
+       - intros x Hx. apply IH. simpl in Hsz. pose proof (size_in _ _ Hx). lia.
        - apply wf_lst. exact Hwf. }
   pose proof Hwf as Hwf0. apply wf_node in Hwf as [Hs Hch].
   assert (Hkids : forall x, In x ch -> agrees c x).
-  { intros x Hx. apply IH. cbn [size] in Hsz. pose proof (size_in _ _ Hx). lia. }
+  { intros x Hx. apply IH. simpl in Hsz. pose proof (size_in _ _ Hx). lia. }
   unfold shape_ok_node in Hs. apply andb_true_iff in Hs as [Hsc Hs]. apply negb_true_iff in Hsc.
   rewrite Hsc in H.
   destruct (k =? K_Name) eqn:EN.
   { (* Name *)
+    apply N.eqb_eq in EN. subst k.
     destruct li as [l| |]; try discriminate.
     destruct ch as [|[ | |a| ] [|[kc [| |] [|]| | |] [|]]]; try discriminate.
-    unfold visit_name in H.
+    unfold visit_name in H. cbn [is_load] in *.
     destruct (is_builtin a) eqn:Eb.
-    - cbn [is_load]. destruct (kc =? K_Load) eqn:El; cbn [negb] in H; [|discriminate].
-      cbn [is_load andb negb] in *. rewrite El in *. cbn [negb andb] in *.
+    - destruct (kc =? K_Load) eqn:El; cbn [negb] in H; [|cbn in H; discriminate].
+      cbn [andb].
       destruct (a =? A_globalParameters) eqn:Eg.
-      + injection H as <-. rewrite orb_true_r. cbn [andb]. unfold accessor_call. reflexivity.
+      + injection H as <-. rewrite orb_true_r. unfold accessor_call. reflexivity.
       + assert (is_tracked a = false) as Et.
         { unfold is_builtin in Eb. rewrite Eg in Eb. cbn [orb] in Eb. unfold is_tracked.
           apply orb_true_iff in Eb. destruct Eb as [Eb|Eb].
@@ -317,7 +319,7 @@ Proof.
           - apply N.eqb_eq in Eb; subst a; reflexivity. }
         rewrite Et. cbn [orb andb negb]. injection H as <-. reflexivity.
     - destruct (is_tracked a) eqn:Et.
-      + cbn [is_load] in *. destruct (kc =? K_Load) eqn:El; cbn [negb] in H; [|discriminate].
+      + destruct (kc =? K_Load) eqn:El; cbn [negb] in H; [|cbn in H; discriminate].
         injection H as <-. cbn [orb andb]. unfold accessor_call. reflexivity.
       + cbn [negb andb orb].
         assert ((a =? A_globalParameters) = false) as Eg.
@@ -338,13 +340,13 @@ Proof.
     { rewrite fix_missing_lift. f_equal. apply Hkids; [left; reflexivity | assumption | assumption]. }
     assert (Ha' : map (fix_missing l) args' = map (rewrite_arg c (Located l)) args).
     { apply args_agree; try assumption.
-      - intros x Hx. apply IH. cbn [size map list_sum] in Hsz. pose proof (size_in _ _ Hx). lia.
-      - intros x v k li cx Hx E. apply IH. subst x. cbn [size map list_sum] in Hsz.
-        pose proof (size_in _ _ Hx) as Hle. cbn [size map list_sum] in Hle. lia.
+      - intros x Hx. apply IH. simpl in Hsz. pose proof (size_in _ _ Hx). lia.
+      - intros x v k li cx Hx E. apply IH. subst x. simpl in Hsz.
+        pose proof (size_in _ _ Hx) as Hle. simpl in Hle. lia.
       - apply wf_lst. exact Hwf_a. }
     assert (Hk' : map (fix_missing l) kws' = map (rewrite_doc c) kws).
     { apply list_agrees with (c := c); try assumption.
-      - intros x Hx. apply IH. cbn [size map list_sum] in Hsz. pose proof (size_in _ _ Hx). lia.
+      - intros x Hx. apply IH. simpl in Hsz. pose proof (size_in _ _ Hx). lia.
       - apply wf_lst. exact Hwf_k. }
     cbn zeta.
     destruct (existsb is_starred args && negb (inBehavior c)); injection H as <-;
@@ -367,15 +369,15 @@ Proof.
     { f_equal. destruct bases as [|b0 br].
       - rewrite ctx_ok_object in Hb by assumption. cbn in Hb. injection Hb as <-. reflexivity.
       - apply list_agrees with (c := c); try assumption.
-        + intros x Hx. apply IH. cbn [size map list_sum] in Hsz.
-          pose proof (size_in _ _ Hx) as Hle. cbn [map list_sum] in Hle. cbn [map list_sum]. lia.
+        + intros x Hx. apply IH. simpl in Hsz.
+          pose proof (size_in _ _ Hx) as Hle. simpl in Hle. simpl. lia.
         + apply wf_lst. exact Hwf_b. }
     f_equal.
     { apply Hkids; [right; right; left; reflexivity | assumption | assumption]. }
     f_equal.
     { f_equal. rewrite map_app. f_equal.
       apply list_agrees with (c := c); try assumption.
-      - intros x Hx. apply IH. cbn [size map list_sum] in Hsz. pose proof (size_in _ _ Hx). lia.
+      - intros x Hx. apply IH. simpl in Hsz. pose proof (size_in _ _ Hx). lia.
       - apply wf_lst. exact Hwf_bd. }
     apply list_agrees with (c := c); try assumption.
     intros x Hx. apply Hkids. right; right; right; right. exact Hx. }
@@ -387,7 +389,8 @@ Proof.
   { intros cur0. apply list_agrees with (c := c); assumption. }
   destruct li as [l| |].
   - cbn [fix_missing]. rewrite Hm. reflexivity.
-  - destruct ((k =? K_AnnAssign) || (k =? K_Yield) || (k =? K_YieldFrom)); discriminate.
+  - destruct (k =? K_Starred); [discriminate|].
+    destruct ((k =? K_AnnAssign) || (k =? K_Yield) || (k =? K_YieldFrom)); discriminate.
   - cbn [fix_missing]. rewrite Hm. reflexivity.
 Qed.
 
@@ -396,4 +399,482 @@ Theorem compile_py_is_rewrite : forall c t t' cur,
 Proof.
   intros c t t' cur Hc Hwf H.
   exact (compile_agrees_sized c Hc (S (size t)) t (Nat.lt_succ_diag_r _) Hwf t' cur H).
+Qed.
+
+(* ---------------------------------------------------------------- T2: totality and the exact set of refused programs *)
+Definition verdict (c : ctx) (t : tree) (r : res tree) : Prop :=
+  match r with
+  | OK _ => rejects c t = false
+  | Err e => rejects c t = true /\ In (err_loc e) (locs t)
+  | Crash => False
+  end.
+
+Definition verdictL (c : ctx) (xs : list tree) (r : res (list tree)) : Prop :=
+  match r with
+  | OK _ => existsb (rejects c) xs = false
+  | Err e => existsb (rejects c) xs = true /\ In (err_loc e) (flat_map locs xs)
+  | Crash => False
+  end.
+
+Lemma list_verdict : forall c xs,
+  (forall x, In x xs -> wf x = true -> verdict c x (compile_py c x)) ->
+  Forall (fun t => wf t = true) xs -> verdictL c xs (compile_list c xs).
+Proof.
+  intros c xs. induction xs as [|x r IH]; intros HA Hwf; [reflexivity|].
+  inversion Hwf as [|? ? Hwx Hwr]; subst.
+  pose proof (HA x (or_introl eq_refl) Hwx) as Hx.
+  assert (Hr : verdictL c r (compile_list c r)).
+  { apply IH; [|assumption]. intros y Hy. apply HA. right. exact Hy. }
+  cbn [compile_list]. change (flat_map locs (x :: r)) with (locs x ++ flat_map locs r).
+  cbn [existsb].
+  destruct (compile_py c x) as [x'|e|]; cbn [bind verdict] in *; [| |contradiction].
+  - destruct (compile_list c r) as [r'|e|]; cbn [bind verdictL existsb] in *; try rewrite Hx; cbn [orb];
+      [assumption| |contradiction].
+    destruct Hr as [Hr1 Hr2]. split; [assumption|]. apply in_or_app. right. assumption.
+  - cbn [verdictL existsb]. destruct Hx as [Hx1 Hx2]. rewrite Hx1. split; [reflexivity|]. apply in_or_app. left. assumption.
+Qed.
+
+Lemma is_ctx_not_offending : forall c kc, is_ctx kc = true -> rejects c (Node kc NoAttr []) = false.
+Proof.
+  intros c kc H. unfold is_ctx in H.
+  apply orb_true_iff in H as [H|H]; [apply orb_true_iff in H as [H|H]|]; apply N.eqb_eq in H; subst kc; reflexivity.
+Qed.
+
+Definition verdictA (c : ctx) (x : tree) (r : res tree) : Prop := verdict c x r.
+
+Lemma arg_verdict : forall c x,
+  verdict c x (compile_py c x) ->
+  (forall v k li cx, x = Node k li [v; cx] -> wf v = true -> verdict c v (compile_py c v)) ->
+  wf x = true -> verdict c x (compile_arg c x).
+Proof.
+  intros c x Hx Hv Hwx.
+  destruct x as [k li ch| | |]; try exact Hx.
+  destruct ch as [|v [|cx [|w r]]]; cbn [compile_arg].
+  - destruct ((k =? K_Starred) && negb (inBehavior c)) eqn:E; [|exact Hx].
+    apply andb_true_iff in E as [Ek _]. apply N.eqb_eq in Ek. subst k.
+    apply wf_node in Hwx as [Hs _]. cbn in Hs. destruct li; discriminate.
+  - destruct ((k =? K_Starred) && negb (inBehavior c)) eqn:E; [|exact Hx].
+    apply andb_true_iff in E as [Ek _]. apply N.eqb_eq in Ek. subst k.
+    apply wf_node in Hwx as [Hs _]. cbn in Hs. destruct li; try discriminate. destruct v as [? [| |] ?| | |]; discriminate.
+  - destruct ((k =? K_Starred) && negb (inBehavior c)) eqn:E; [|exact Hx].
+    apply andb_true_iff in E as [Ek _]. apply N.eqb_eq in Ek. subst k.
+    apply wf_node in Hwx as [Hs Hch]. cbn in Hs.
+    destruct li as [ls| |]; try discriminate.
+    destruct v as [kv [lv| |] chv| | |]; try discriminate.
+    destruct cx as [kc [| |] [|]| | |]; try discriminate.
+    inversion Hch as [|? ? Hwv _]; subst.
+    specialize (Hv _ _ _ _ eq_refl Hwv).
+    cbn [line_of].
+    assert (Hrej : rejects c (Node K_Starred (Located ls) [Node kv (Located lv) chv; Node kc NoAttr []])
+                   = rejects c (Node kv (Located lv) chv)).
+    { pose proof (is_ctx_not_offending c kc Hs) as Hcx.
+      set (V := Node kv (Located lv) chv) in *. set (CX := Node kc NoAttr []) in *.
+      change (rejects c (Node K_Starred (Located ls) [V; CX])) with
+        (offending_node c K_Starred [V; CX] || (rejects c V || (rejects c CX || false))).
+      rewrite Hcx.
+      change (offending_node c K_Starred [V; CX]) with
+        (false || false || false && (inCompose c || inBehavior c)).
+      cbn [orb andb]. rewrite !orb_false_r. reflexivity. }
+    destruct (compile_py c (Node kv (Located lv) chv)) as [v'|e|]; cbn [bind verdict] in *; [| |contradiction].
+    + rewrite Hrej. exact Hv.
+    + destruct Hv as [Hv1 Hv2]. rewrite Hrej. split; [assumption|].
+      change (locs (Node K_Starred (Located ls) [Node kv (Located lv) chv; Node kc NoAttr []])) with
+        ([ls] ++ (locs (Node kv (Located lv) chv) ++ (locs (Node kc NoAttr []) ++ []))).
+      apply in_or_app. right. apply in_or_app. left. exact Hv2.
+  - destruct ((k =? K_Starred) && negb (inBehavior c)) eqn:E; [|exact Hx].
+    apply andb_true_iff in E as [Ek _]. apply N.eqb_eq in Ek. subst k.
+    apply wf_node in Hwx as [Hs _]. cbn in Hs. destruct li; try discriminate.
+    destruct v as [? [| |] ?| | |]; try discriminate. destruct cx as [? [| |] [|]| | |]; discriminate.
+Qed.
+
+Lemma args_verdict : forall c xs,
+  (forall x, In x xs -> wf x = true -> verdict c x (compile_py c x)) ->
+  (forall x v k li cx, In x xs -> x = Node k li [v; cx] -> wf v = true -> verdict c v (compile_py c v)) ->
+  Forall (fun t => wf t = true) xs -> verdictL c xs (compile_args c xs).
+Proof.
+  intros c xs. induction xs as [|x r IH]; intros HA HV Hwf; [reflexivity|].
+  inversion Hwf as [|? ? Hwx Hwr]; subst.
+  assert (Hx : verdict c x (compile_arg c x)).
+  { apply arg_verdict; [apply HA; [left; reflexivity|assumption] | | assumption].
+    intros v k li cx E. eapply HV; [left; reflexivity | exact E]. }
+  assert (Hr : verdictL c r (compile_args c r)).
+  { apply IH; [| |assumption].
+    - intros y Hy. apply HA. right. exact Hy.
+    - intros y v k li cx Hy E. eapply HV; [right; exact Hy | exact E]. }
+  cbn [compile_args]. change (flat_map locs (x :: r)) with (locs x ++ flat_map locs r).
+  cbn [existsb].
+  destruct (compile_arg c x) as [x'|e|]; cbn [bind verdict] in *; [| |contradiction].
+  - destruct (compile_args c r) as [r'|e|]; cbn [bind verdictL existsb] in *; try rewrite Hx; cbn [orb];
+      [assumption| |contradiction].
+    destruct Hr as [Hr1 Hr2]. split; [assumption|]. apply in_or_app. right. assumption.
+  - cbn [verdictL existsb]. destruct Hx as [Hx1 Hx2]. rewrite Hx1. split; [reflexivity|]. apply in_or_app. left. assumption.
+Qed.
+
+Lemma has_annassign_loc : forall body sli,
+  has_annassign body = Some sli -> Forall (fun t => wf t = true) body ->
+  exists l, sli = Located l /\ In l (flat_map locs body).
+Proof.
+  intros body sli. induction body as [|x r IH]; intros H Hwf; [discriminate|].
+  inversion Hwf as [|? ? Hwx Hwr]; subst.
+  change (flat_map locs (x :: r)) with (locs x ++ flat_map locs r).
+  destruct x as [k li ch| | |]; cbn [has_annassign] in H.
+  - destruct (k =? K_AnnAssign) eqn:E.
+    + injection H as <-. apply N.eqb_eq in E. subst k.
+      apply wf_node in Hwx as [Hs _]. cbn in Hs. destruct li as [l| |]; try discriminate.
+      exists l. split; [reflexivity|]. left. reflexivity.
+    + destruct (IH H Hwr) as [l [E1 E2]]. exists l. split; [assumption|]. apply in_or_app. right. assumption.
+  - destruct (IH H Hwr) as [l [E1 E2]]. exists l. split; [assumption|]. apply in_or_app. right. assumption.
+  - destruct (IH H Hwr) as [l [E1 E2]]. exists l. split; [assumption|]. apply in_or_app. right. assumption.
+  - destruct (IH H Hwr) as [l [E1 E2]]. exists l. split; [assumption|]. apply in_or_app. right. assumption.
+Qed.
+
+Lemma verdictL_of_OK : forall c xs ys, verdictL c xs (OK ys) -> existsb (rejects c) xs = false.
+Proof. intros; assumption. Qed.
+
+Lemma compile_verdict_sized : forall c, ctx_ok c = true ->
+  forall n t, (size t < n)%nat -> wf t = true -> verdict c t (compile_py c t).
+Proof.
+  intros c Hc n. induction n as [|n IH]; intros t Hsz Hwf; [lia|].
+  rewrite compile_py_eq.
+  destruct t as [k li ch| xs | a | z]; [| |reflexivity|reflexivity].
+  2: { assert (HL : verdictL c xs (compile_list c xs)).
+       { apply list_verdict; [|apply wf_lst; exact Hwf].
+         intros x Hx Hwx. apply IH; [|exact Hwx]. simpl in Hsz. pose proof (size_in _ _ Hx). lia. }
+       destruct (compile_list c xs) as [xs'|e|]; cbn [bind verdict verdictL rejects locs] in *; assumption. }
+  pose proof Hwf as Hwf0. apply wf_node in Hwf as [Hs Hch].
+  assert (Hkid : forall x, In x ch -> wf x = true -> verdict c x (compile_py c x)).
+  { intros x Hx Hwx. apply IH; [|exact Hwx]. simpl in Hsz. pose proof (size_in _ _ Hx). lia. }
+  assert (HL : verdictL c ch (compile_list c ch)) by (apply list_verdict; assumption).
+  unfold shape_ok_node in Hs. apply andb_true_iff in Hs as [Hsc Hs]. apply negb_true_iff in Hsc.
+  rewrite Hsc.
+  destruct (k =? K_Name) eqn:EN.
+  { apply N.eqb_eq in EN. subst k.
+    destruct li as [l| |]; try discriminate.
+    destruct ch as [|[ | |a| ] [|[kc [| |] [|]| | |] [|]]]; try discriminate.
+    pose proof (is_ctx_not_offending c kc Hs) as Hcx.
+    assert (Hrej : rejects c (Node K_Name (Located l) [Atom a; Node kc NoAttr []])
+                   = (is_builtin a || is_tracked a) && negb (kc =? K_Load)).
+    { set (CX := Node kc NoAttr []) in *.
+      change (rejects c (Node K_Name (Located l) [Atom a; CX])) with
+        (((true && ((is_builtin a || is_tracked a) && negb (is_load CX))) || (false && false)
+          || (false && (inCompose c || inBehavior c))) || (false || (rejects c CX || false))).
+      rewrite Hcx. cbn [andb orb]. rewrite !orb_false_r. reflexivity. }
+    unfold visit_name. cbn [is_load].
+    destruct (is_builtin a) eqn:Eb.
+    - destruct (kc =? K_Load) eqn:El; cbn [negb].
+      + destruct (a =? A_globalParameters); cbn [verdict]; rewrite Hrej; cbn [orb andb negb]; reflexivity.
+      + cbn [err_at verdict err_loc]. rewrite Hrej. cbn [orb andb negb]. split; [reflexivity|].
+        left. reflexivity.
+    - destruct (is_tracked a) eqn:Et.
+      + destruct (kc =? K_Load) eqn:El; cbn [negb].
+        * cbn [verdict]. rewrite Hrej. reflexivity.
+        * cbn [err_at verdict err_loc]. rewrite Hrej. split; [reflexivity|]. left. reflexivity.
+      + destruct (memN a (locals c)); cbn [verdict]; rewrite Hrej; reflexivity. }
+  destruct (k =? K_Call) eqn:EC.
+  { apply N.eqb_eq in EC. subst k.
+    destruct li as [l| |]; try discriminate.
+    destruct ch as [|f [|[ | args | | ] [|[ | kws | | ] [|]]]]; try discriminate.
+    inversion Hch as [|? ? Hwf_f Hch1]; subst. inversion Hch1 as [|? ? Hwf_a Hch2]; subst.
+    inversion Hch2 as [|? ? Hwf_k _]; subst.
+    assert (Ha : verdictL c args (compile_args c args)).
+    { apply args_verdict; [| |apply wf_lst; exact Hwf_a].
+      - intros x Hx Hwx. apply IH; [|exact Hwx]. simpl in Hsz. pose proof (size_in _ _ Hx). lia.
+      - intros x v k li cx Hx E Hwv. apply IH; [|exact Hwv]. subst x. simpl in Hsz.
+        pose proof (size_in _ _ Hx) as Hle. simpl in Hle. lia. }
+    assert (Hk : verdictL c kws (compile_list c kws)).
+    { apply list_verdict; [|apply wf_lst; exact Hwf_k].
+      intros x Hx Hwx. apply IH; [|exact Hwx]. simpl in Hsz. pose proof (size_in _ _ Hx). lia. }
+    assert (Hf : verdict c f (compile_py c f)) by (apply Hkid; [left; reflexivity|assumption]).
+    unfold verdict at 1.
+    change (rejects c (Node K_Call (Located l) [f; Lst args; Lst kws])) with
+      (false || (rejects c f || (existsb (rejects c) args || (existsb (rejects c) kws || false)))).
+    change (locs (Node K_Call (Located l) [f; Lst args; Lst kws])) with
+      ([l] ++ (locs f ++ (flat_map locs args ++ (flat_map locs kws ++ [])))).
+    destruct (compile_args c args) as [args'|e|]; cbv beta iota delta [bind verdict verdictL] in *; [| |contradiction].
+    2: { destruct Ha as [Ha1 Ha2]. rewrite Ha1. rewrite !orb_true_r. split; [reflexivity|].
+         apply in_or_app. right. apply in_or_app. right. apply in_or_app. left. assumption. }
+    destruct (compile_list c kws) as [kws'|e|]; cbv beta iota delta [bind verdict verdictL] in *; [| |contradiction].
+    2: { destruct Hk as [Hk1 Hk2]. rewrite Hk1. rewrite !orb_true_r. split; [reflexivity|].
+         apply in_or_app. right. apply in_or_app. right. apply in_or_app. right. apply in_or_app. left. assumption. }
+    destruct (compile_py c f) as [f0|e|]; cbv beta iota delta [bind verdict verdictL] in *; [| |contradiction].
+    2: { destruct Hf as [Hf1 Hf2]. rewrite Hf1. split; [reflexivity|].
+         apply in_or_app. right. apply in_or_app. left. assumption. }
+    cbn zeta. rewrite Hf, Ha, Hk.
+    destruct (existsb is_starred args && negb (inBehavior c)); reflexivity. }
+  destruct (k =? K_ClassDef) eqn:ED.
+  { apply N.eqb_eq in ED. subst k.
+    destruct li as [l| |]; try discriminate.
+    destruct ch as [|name [|[ | bases | | ] [|kws [|[ | body | | ] rest]]]]; try discriminate.
+    inversion Hch as [|? ? Hwf_n Hch1]; subst. inversion Hch1 as [|? ? Hwf_b Hch2]; subst.
+    inversion Hch2 as [|? ? Hwf_k Hch3]; subst. inversion Hch3 as [|? ? Hwf_bd Hwf_r]; subst.
+    set (CH := name :: Lst bases :: kws :: Lst body :: rest) in *.
+    assert (Hrej : rejects c (Node K_ClassDef (Located l) CH) =
+                   (match has_annassign body with Some _ => true | None => false end)
+                   || (rejects c name || (existsb (rejects c) bases || (rejects c kws ||
+                       (existsb (rejects c) body || existsb (rejects c) rest))))).
+    { change (rejects c (Node K_ClassDef (Located l) CH)) with
+        ((false || (true && match has_annassign body with Some _ => true | None => false end)
+          || (false && (inCompose c || inBehavior c)))
+         || (rejects c name || (existsb (rejects c) bases || (rejects c kws ||
+                       (existsb (rejects c) body || existsb (rejects c) rest))))).
+      cbn [orb andb]. rewrite orb_false_r. reflexivity. }
+    assert (Hlocs : locs (Node K_ClassDef (Located l) CH) =
+                    [l] ++ (locs name ++ (flat_map locs bases ++ (locs kws ++ (flat_map locs body ++ flat_map locs rest))))).
+    { reflexivity. }
+    unfold verdict at 1. rewrite Hlocs, Hrej. clear Hlocs Hrej.
+    destruct (has_annassign body) as [sli|] eqn:EA.
+    { destruct (has_annassign_loc _ _ EA (wf_lst _ Hwf_bd)) as [la [-> Hin]].
+      cbn [err_at err_loc orb]. split; [reflexivity|].
+      apply in_or_app. right. apply in_or_app. right. apply in_or_app. right. apply in_or_app. right.
+      apply in_or_app. left. assumption. }
+    cbn [orb].
+    assert (Hn : verdict c name (compile_py c name)) by (apply Hkid; [left; reflexivity|assumption]).
+    assert (Hb : verdictL c bases (compile_list c bases)).
+    { apply list_verdict; [|apply wf_lst; exact Hwf_b].
+      intros x Hx Hwx. apply IH; [|exact Hwx]. simpl in Hsz. pose proof (size_in _ _ Hx) as Hle. lia. }
+    assert (Hkw : verdict c kws (compile_py c kws)) by (apply Hkid; [right; right; left; reflexivity|assumption]).
+    assert (Hbd : verdictL c body (compile_list c body)).
+    { apply list_verdict; [|apply wf_lst; exact Hwf_bd].
+      intros x Hx Hwx. apply IH; [|exact Hwx]. simpl in Hsz. pose proof (size_in _ _ Hx) as Hle. lia. }
+    assert (Hr : verdictL c rest (compile_list c rest)).
+    { apply list_verdict; [|exact Hwf_r]. intros x Hx Hwx. apply Hkid; [|exact Hwx].
+      right; right; right; right. exact Hx. }
+    set (RB := match bases with [] => bind (object_base c) (fun b => OK [b]) | _ => compile_list c bases end).
+    assert (Hb' : verdictL c bases RB).
+    { subst RB. destruct bases; [|exact Hb]. rewrite ctx_ok_object by assumption. reflexivity. }
+    clearbody RB.
+    destruct (compile_py c name) as [name'|e|]; cbv beta iota delta [bind verdict verdictL] in *; [| |contradiction].
+    2: { destruct Hn as [H1 H2]. rewrite H1. split; [reflexivity|].
+         apply in_or_app. right. apply in_or_app. left. assumption. }
+    rewrite Hn. cbn [orb].
+    destruct RB as [bases'|e|]; cbv beta iota delta [bind verdict verdictL] in *; [| |contradiction].
+    2: { destruct Hb' as [H1 H2]. rewrite H1. cbn [orb]. split; [reflexivity|].
+         apply in_or_app. right. apply in_or_app. right. apply in_or_app. left. assumption. }
+    rewrite Hb'. cbn [orb].
+    destruct (compile_py c kws) as [kws'|e|]; cbv beta iota delta [bind verdict verdictL] in *; [| |contradiction].
+    2: { destruct Hkw as [H1 H2]. rewrite H1. cbn [orb]. split; [reflexivity|].
+         apply in_or_app. right. apply in_or_app. right. apply in_or_app. right. apply in_or_app. left. assumption. }
+    rewrite Hkw. cbn [orb].
+    destruct (compile_list c body) as [body'|e|]; cbv beta iota delta [bind verdict verdictL] in *; [| |contradiction].
+    2: { destruct Hbd as [H1 H2]. rewrite H1. cbn [orb]. split; [reflexivity|].
+         apply in_or_app. right. apply in_or_app. right. apply in_or_app. right. apply in_or_app. right.
+         apply in_or_app. left. assumption. }
+    rewrite Hbd. cbn [orb].
+    rewrite ctx_ok_props by assumption. cbn [bind].
+    destruct (compile_list c rest) as [rest'|e|]; cbv beta iota delta [bind verdict verdictL] in *; [| |contradiction].
+    2: { destruct Hr as [H1 H2]. split; [assumption|].
+         apply in_or_app. right. apply in_or_app. right. apply in_or_app. right. apply in_or_app. right.
+         apply in_or_app. right. assumption. }
+    exact Hr. }
+  (* generic kinds *)
+  assert (Hrej : rejects c (Node k li ch) =
+                 (((k =? K_Yield) || (k =? K_YieldFrom)) && (inCompose c || inBehavior c)) || existsb (rejects c) ch).
+  { change (rejects c (Node k li ch)) with (offending_node c k ch || existsb (rejects c) ch).
+    unfold offending_node. rewrite EN, ED. reflexivity. }
+  unfold verdict at 1. rewrite Hrej.
+  change (locs (Node k li ch)) with ((match li with Located l => [l] | _ => [] end) ++ flat_map locs ch).
+  destruct (((k =? K_Yield) || (k =? K_YieldFrom)) && (inCompose c || inBehavior c)) eqn:EY.
+  { apply andb_true_iff in EY as [EY _].
+    destruct (k =? K_Starred); [destruct li; try discriminate; cbn; split; [reflexivity|left; reflexivity]|].
+    replace ((k =? K_AnnAssign) || (k =? K_Yield) || (k =? K_YieldFrom)) with true in Hs
+      by (rewrite <- orb_assoc; rewrite EY; rewrite orb_true_r; reflexivity).
+    destruct li as [l| |]; try discriminate. cbn [err_at err_loc orb]. split; [reflexivity|]. left. reflexivity. }
+  cbn [orb].
+  destruct (compile_list c ch) as [ch'|e|]; cbv beta iota delta [bind verdict verdictL] in *; [assumption| |contradiction].
+  destruct HL as [H1 H2]. split; [assumption|]. apply in_or_app. right. assumption.
+Qed.
+
+Theorem compile_py_verdict : forall c t, ctx_ok c = true -> wf t = true -> verdict c t (compile_py c t).
+Proof. intros c t Hc Hwf. exact (compile_verdict_sized c Hc (S (size t)) t (Nat.lt_succ_diag_r _) Hwf). Qed.
+
+(* totality: on a tree without Scenic nodes the compiler returns a tree or a located syntax error *)
+Theorem compile_py_total : forall c t, ctx_ok c = true -> wf t = true -> compile_py c t <> Crash.
+Proof.
+  intros c t Hc Hwf E. pose proof (compile_py_verdict c t Hc Hwf) as H. rewrite E in H. exact H.
+Qed.
+
+Theorem compile_py_accepts_iff : forall c t, ctx_ok c = true -> wf t = true ->
+  ((exists t', compile_py c t = OK t') <-> rejects c t = false).
+Proof.
+  intros c t Hc Hwf. pose proof (compile_py_verdict c t Hc Hwf) as H. split.
+  - intros [t' E]. rewrite E in H. exact H.
+  - intros Hr. destruct (compile_py c t) as [t'|e|]; cbn in H.
+    + eauto.
+    + destruct H as [H _]. congruence.
+    + contradiction.
+Qed.
+
+Theorem compile_py_error_located : forall c t e, ctx_ok c = true -> wf t = true ->
+  compile_py c t = Err e -> rejects c t = true /\ In (err_loc e) (locs t).
+Proof. intros c t e Hc Hwf E. pose proof (compile_py_verdict c t Hc Hwf) as H. rewrite E in H. exact H. Qed.
+
+(* ---------------------------------------------------------------- T3: locations *)
+Lemma fix_missing_no_missing : forall t cur, no_missing (fix_missing cur t) = true.
+Proof.
+  induction t as [k li ch IH| xs IH | a | z] using tree_ind2; intros cur; try reflexivity.
+  - assert (forall cur0, forallb no_missing (map (fix_missing cur0) ch) = true) as H.
+    { intros cur0. apply forallb_forall. intros x Hx. apply in_map_iff in Hx as [y [<- Hy]].
+      rewrite Forall_forall in IH. apply IH. exact Hy. }
+    destruct li; cbn [fix_missing no_missing]; rewrite H; reflexivity.
+  - cbn [fix_missing no_missing]. apply forallb_forall. intros x Hx. apply in_map_iff in Hx as [y [<- Hy]].
+    rewrite Forall_forall in IH. apply IH. exact Hy.
+Qed.
+
+Definition L (li : locinfo) : list loc := match li with Located l => [l] | _ => [] end.
+
+Lemma rewrite_keeps_li : forall c k li ch, exists k' ch', rewrite_doc c (Node k li ch) = Node k' li ch'.
+Proof.
+  intros c k li ch. rewrite rewrite_doc_eq.
+  destruct (k =? K_Name).
+  { destruct ch as [|[ | |a| ] [|cx [|]]]; eauto.
+    destruct (is_load cx && (is_tracked a || (a =? A_globalParameters))); [unfold accessor_call; eauto|].
+    destruct (negb (is_builtin a) && negb (is_tracked a) && memN a (locals c)); eauto. }
+  destruct (k =? K_Call).
+  { destruct ch as [|f [|[ | args | | ] [|[ | kws | | ] [|]]]]; eauto.
+    cbn zeta. destruct (existsb is_starred args && negb (inBehavior c)); eauto. }
+  destruct (k =? K_ClassDef); eauto.
+  destruct ch as [|name [|[ | bases | | ] [|kws [|[ | body | | ] rest]]]]; eauto.
+Qed.
+
+Lemma flat_map_incl : forall (f : tree -> tree) xs l,
+  (forall x, In x xs -> In l (locs (f x)) -> In l (locs x)) ->
+  In l (flat_map locs (map f xs)) -> In l (flat_map locs xs).
+Proof.
+  intros f xs l H Hin. apply in_flat_map in Hin as [y [Hy Hl]]. apply in_map_iff in Hy as [x [<- Hx]].
+  apply in_flat_map. exists x. split; [assumption|]. apply H; assumption.
+Qed.
+
+Lemma lift_func_locs : forall f, locs (lift_func f) = locs f.
+Proof.
+  intros [k li ch| | |]; try reflexivity.
+  destruct ch as [|x [|y [|z r]]]; try reflexivity; destruct x; try reflexivity;
+    cbn [lift_func]; destruct (k =? K_Name); reflexivity.
+Qed.
+
+Lemma rewrite_locs_sized : forall c n t, (size t < n)%nat ->
+  forall l, In l (locs (rewrite_doc c t)) -> In l (locs t).
+Proof.
+  intros c n. induction n as [|n IH]; intros t Hsz l Hin; [lia|].
+  rewrite rewrite_doc_eq in Hin.
+  destruct t as [k li ch| xs | a | z]; try exact Hin.
+  2: { cbn [locs] in *. apply flat_map_incl with (f := rewrite_doc c); [|exact Hin].
+       intros x Hx. apply IH. simpl in Hsz. pose proof (size_in _ _ Hx). lia. }
+  assert (Hkids : forall x, In x ch -> In l (locs (rewrite_doc c x)) -> In l (locs x)).
+  { intros x Hx. apply IH. simpl in Hsz. pose proof (size_in _ _ Hx). lia. }
+  assert (Hgen : In l (locs (Node k li (map (rewrite_doc c) ch))) -> In l (locs (Node k li ch))).
+  { cbn [locs]. intros H. apply in_app_or in H as [H|H]; apply in_or_app; [left; exact H|right].
+    apply flat_map_incl with (f := rewrite_doc c); assumption. }
+  change (locs (Node k li ch)) with (L li ++ flat_map locs ch).
+  destruct (k =? K_Name).
+  { destruct ch as [|[ | |a| ] [|cx [|]]]; try exact Hin.
+    destruct (is_load cx && (is_tracked a || (a =? A_globalParameters))).
+    - unfold accessor_call in Hin. cbn [locs flat_map] in Hin. fold (L li) in Hin.
+      apply in_or_app. left. rewrite !app_nil_r in Hin. apply in_app_or in Hin as [H|H]; exact H.
+    - destruct (negb (is_builtin a) && negb (is_tracked a) && memN a (locals c)); [|exact Hin].
+      change (In l (L li ++ ((L li ++ ([] ++ (locs load ++ []))) ++ ([] ++ (locs cx ++ []))))) in Hin.
+      change (locs load) with (@nil loc) in Hin. rewrite !app_nil_r in Hin. cbn [app] in Hin.
+      apply in_app_or in Hin as [H|H]; [apply in_or_app; left; exact H|].
+      apply in_app_or in H as [H|H]; [apply in_or_app; left; exact H|].
+      apply in_or_app. right. cbn [flat_map locs]. rewrite app_nil_r. exact H. }
+  destruct (k =? K_Call).
+  { destruct ch as [|f [|[ | args | | ] [|[ | kws | | ] [|]]]]; try (apply Hgen; exact Hin).
+    cbn zeta in Hin.
+    assert (Hf : In l (locs (lift_func (rewrite_doc c f))) -> In l (locs f)).
+    { rewrite lift_func_locs. apply Hkids. left. reflexivity. }
+    assert (Ha : In l (flat_map locs (map (rewrite_arg c li) args)) -> In l (L li) \/ In l (flat_map locs args)).
+    { intros H. apply in_flat_map in H as [y [Hy Hl]]. apply in_map_iff in Hy as [x [<- Hx]].
+      assert (Hxs : (size x < n)%nat).
+      { simpl in Hsz. pose proof (size_in _ _ Hx). lia. }
+      assert (Hdef : In l (locs (rewrite_doc c x)) -> In l (L li) \/ In l (flat_map locs args)).
+      { intros H. right. apply in_flat_map. exists x. split; [assumption|]. apply IH; assumption. }
+      destruct x as [ks lis [|v [|cx [|]]]| | |]; try (apply Hdef; exact Hl).
+      cbn [rewrite_arg] in Hl.
+      destruct ((ks =? K_Starred) && negb (inBehavior c)); [|apply Hdef; exact Hl].
+      destruct (line_of v) as [ln|]; [|apply Hdef; exact Hl].
+      unfold wrap_star in Hl.
+      change (In l (L li ++ ((L li ++ ((L li ++ ([] ++ (locs load ++ []))) ++
+                 ((locs (rewrite_doc c v) ++ ((L li ++ ([] ++ ([] ++ []))) ++ [])) ++ ([] ++ [])))) ++ (locs load ++ [])))) in Hl.
+      change (locs load) with (@nil loc) in Hl. rewrite !app_nil_r in Hl. cbn [app] in Hl.
+      repeat (apply in_app_or in Hl as [Hl|Hl]; [left; exact Hl|]).
+      apply in_app_or in Hl as [Hl|Hl]; [|left; exact Hl].
+      right. apply in_flat_map. exists (Node ks lis [v; cx]). split; [assumption|].
+      cbn [locs flat_map]. apply in_or_app. right. apply in_or_app. left.
+      apply IH; [|exact Hl]. simpl in Hxs. lia. }
+    assert (Hk : In l (flat_map locs (map (rewrite_doc c) kws)) -> In l (flat_map locs kws)).
+    { apply flat_map_incl. intros x Hx. apply IH. simpl in Hsz. pose proof (size_in _ _ Hx). lia. }
+    change (flat_map locs [f; Lst args; Lst kws]) with (locs f ++ (flat_map locs args ++ (flat_map locs kws ++ []))).
+    destruct (existsb is_starred args && negb (inBehavior c)).
+    - change (In l (L li ++ ((L li ++ ([] ++ (locs load ++ []))) ++
+                ((locs (lift_func (rewrite_doc c f)) ++ flat_map locs (map (rewrite_arg c li) args)) ++
+                 (flat_map locs (map (rewrite_doc c) kws) ++ []))))) in Hin.
+      change (locs load) with (@nil loc) in Hin. rewrite !app_nil_r in Hin. cbn [app] in Hin.
+      apply in_app_or in Hin as [H|H]; [apply in_or_app; left; exact H|].
+      apply in_app_or in H as [H|H]; [apply in_or_app; left; exact H|].
+      apply in_app_or in H as [H|H].
+      + apply in_app_or in H as [H|H].
+        * apply in_or_app. right. apply in_or_app. left. apply Hf. exact H.
+        * destruct (Ha H) as [H'|H']; apply in_or_app; [left; exact H'|right].
+          apply in_or_app. right. apply in_or_app. left. exact H'.
+      + apply in_or_app. right. apply in_or_app. right. apply in_or_app. right. rewrite app_nil_r. apply Hk. exact H.
+    - change (In l (L li ++ (locs (lift_func (rewrite_doc c f)) ++
+                (flat_map locs (map (rewrite_arg c li) args) ++ (flat_map locs (map (rewrite_doc c) kws) ++ []))))) in Hin.
+      rewrite !app_nil_r in Hin.
+      apply in_app_or in Hin as [H|H]; [apply in_or_app; left; exact H|].
+      apply in_app_or in H as [H|H].
+      + apply in_or_app. right. apply in_or_app. left. apply Hf. exact H.
+      + apply in_app_or in H as [H|H].
+        * destruct (Ha H) as [H'|H']; apply in_or_app; [left; exact H'|right].
+          apply in_or_app. right. apply in_or_app. left. exact H'.
+        * apply in_or_app. right. apply in_or_app. right. apply in_or_app. right. rewrite app_nil_r. apply Hk. exact H. }
+  destruct (k =? K_ClassDef); [|apply Hgen; exact Hin].
+  destruct ch as [|name [|[ | bases | | ] [|kws [|[ | body | | ] rest]]]]; try (apply Hgen; exact Hin).
+  change (flat_map locs (name :: Lst bases :: kws :: Lst body :: rest)) with
+    (locs name ++ (flat_map locs bases ++ (locs kws ++ (flat_map locs body ++ flat_map locs rest)))).
+  cbn zeta in Hin.
+  set (B' := match bases with [] => [Node K_Name li [Atom A_Object; load]] | _ => map (rewrite_doc c) bases end) in Hin.
+  change (In l (L li ++ (locs (rewrite_doc c name) ++ (flat_map locs B' ++ (locs (rewrite_doc c kws) ++
+            (flat_map locs (map (rewrite_doc c) body ++ [props_assign_at li]) ++ flat_map locs (map (rewrite_doc c) rest))))))) in Hin.
+  assert (HB : In l (flat_map locs B') -> In l (L li) \/ In l (flat_map locs bases)).
+  { subst B'. destruct bases as [|b0 br].
+    - intros H. left. cbn [flat_map locs] in H. change (locs load) with (@nil loc) in H.
+      rewrite !app_nil_r in H. exact H.
+    - intros H. right. revert H. apply flat_map_incl. intros x Hx. apply IH. simpl in Hsz.
+      pose proof (size_in _ _ Hx) as Hle. simpl in Hle. lia. }
+  assert (Hbody : forall x, In x body -> In l (locs (rewrite_doc c x)) -> In l (locs x)).
+  { intros x Hx. apply IH. simpl in Hsz. pose proof (size_in _ _ Hx). lia. }
+  apply in_app_or in Hin as [H|H]; [apply in_or_app; left; exact H|].
+  apply in_app_or in H as [H|H].
+  { apply in_or_app. right. apply in_or_app. left. apply Hkids; [left; reflexivity|exact H]. }
+  apply in_app_or in H as [H|H].
+  { destruct (HB H) as [H'|H']; apply in_or_app; [left; exact H'|right].
+    apply in_or_app. right. apply in_or_app. left. exact H'. }
+  apply in_app_or in H as [H|H].
+  { apply in_or_app. right. apply in_or_app. right. apply in_or_app. right. apply in_or_app. left.
+    apply Hkids; [right; right; left; reflexivity|exact H]. }
+  apply in_app_or in H as [H|H].
+  { rewrite flat_map_app in H. apply in_app_or in H as [H|H].
+    - apply in_or_app. right. apply in_or_app. right. apply in_or_app. right. apply in_or_app. right.
+      apply in_or_app. left. revert H. apply flat_map_incl. exact Hbody.
+    - apply in_or_app. left. unfold props_assign_at in H. cbn [flat_map locs] in H. fold (L li) in H.
+      change (locs store) with (@nil loc) in H. rewrite !app_nil_r in H. cbn [app] in H.
+      repeat (apply in_app_or in H as [H|H]; [exact H|]). exact H. }
+  apply in_or_app. right. apply in_or_app. right. apply in_or_app. right. apply in_or_app. right.
+  apply in_or_app. right. revert H. apply flat_map_incl. intros x Hx. apply Hkids. right; right; right; right. exact Hx.
+Qed.
+
+Theorem rewrite_locs_incl : forall c t l, In l (locs (rewrite_doc c t)) -> In l (locs t).
+Proof. intros c t l. exact (rewrite_locs_sized c (S (size t)) t (Nat.lt_succ_diag_r _) l). Qed.
+
+Theorem locations_preserved : forall c t t' cur,
+  ctx_ok c = true -> wf t = true -> compile_py c t = OK t' ->
+  let out := fix_missing cur t' in
+  no_missing out = true
+  /\ (forall k li ch, t = Node k li ch -> exists k' ch', out = Node k' li ch')
+  /\ (forall l, In l (locs out) -> In l (locs t)).
+Proof.
+  intros c t t' cur Hc Hwf H out.
+  assert (E : out = rewrite_doc c t) by (apply compile_py_is_rewrite; assumption).
+  split; [apply fix_missing_no_missing|]. split.
+  - intros k li ch ->. rewrite E. apply rewrite_keeps_li.
+  - intros l. rewrite E. apply rewrite_locs_incl.
 Qed.
